@@ -393,49 +393,90 @@ let run_sched kvs ikvs =
       incr n
     done;
     if not (pred (phase_of t)) then fail (Printf.sprintf "cannot-reach:t%d:%s" t what) in
-  List.iter (fun e ->
+  (* The hooks record an event shortly AFTER the action: the connection may already be closed (observed by another goroutine)
+     a little before its Closed event appears in the trace.  When the library behaves as if the connection were closed and a
+     Closed event is still to come, the model performs that close now and the later event is skipped. *)
+  let tr_list = Array.of_list trace in
+  let closed_consumed = ref false in
+  let do_close t =
+    (match phase_of t with
+     | DoClose -> ignore (stepn t false)
+     | _ ->
+       let saved = !st in
+       let ok = ref false and n = ref 0 in
+       while not !ok && !n < 8 do
+         (match phase_of t with DoClose -> ok := true | Idle | Unlock _ | FailFrame _ -> if not (stepn t false) then n := 8 | _ -> n := 8);
+         incr n
+       done;
+       if !ok then ignore (stepn t false)
+       else begin st := saved; (match step !st EClose with Some s -> st := s | None -> ()) end) in
+  let ensure_closed i =
+    if not !st.closed && not !closed_consumed then begin
+      let j = ref (i + 1) in
+      while !j < Array.length tr_list && tr_list.(!j).evk <> 4 do incr j done;
+      if !j < Array.length tr_list then (closed_consumed := true; do_close tr_list.(!j).th)
+    end in
+  List.iteri (fun i e ->
     if !err = "" then begin
       let t = e.th in
       match e.evk, e.mu with
-      | 1, 1 -> (* msgWriter.mu acquired *)
+      | 1, _ when !st.closed && (e.mu = 1 || e.mu = 3) ->
+        (* after the close a lock may still be taken and given back at once (the hook precedes the closed re-check): no effect.
+           Let the thread run into its failure if it can; otherwise ignore the event *)
+        let saved = !st in
+        let want = (fun p -> match p, e.mu with WantMsg _, 1 -> true | WantFrame _, 3 -> true | _ -> false) in
+        let n = ref 0 in
+        while not (want (phase_of t)) && !n < 8 && (stepn t false || stepn t true) do incr n done;
+        if want (phase_of t) then ignore (stepn t false || stepn t true) else st := saved
+      | 1, 1 -> (* msgWriter.mu acquired (recorded before the closed re-check) *)
         advance t (function WantMsg _ -> true | _ -> false) "lock-msg";
-        if !err = "" && not (stepn t false) then fail (Printf.sprintf "model-blocks:t%d:lock-msg" t)
-      | 1, 3 -> (* writeFrameMu acquired *)
+        if !err = "" && not (stepn t false) then begin
+          ensure_closed i;
+          if not (stepn t false) && not (stepn t true) then fail (Printf.sprintf "model-blocks:t%d:lock-msg" t)
+        end
+      | 1, 3 -> (* writeFrameMu acquired (recorded before the closed re-check) *)
         advance t (function WantFrame _ -> true | _ -> false) "lock-frame";
-        if !err = "" && not (stepn t false) then fail (Printf.sprintf "model-blocks:t%d:lock-frame" t);
-        (match phase_of t with Check _ -> () | _ -> fail (Printf.sprintf "lock-frame-not-acquired:t%d" t))
-      | 5, _ -> (* writeFrame passed its checks *)
-        (match phase_of t with Check _ -> if not (stepn t false) then fail "check-step" | _ -> fail (Printf.sprintf "frame-without-lock:t%d" t));
-        (match phase_of t with Emit _ -> () | _ -> fail (Printf.sprintf "model-refuses-frame:t%d:opc%d" t e.a))
+        if !err = "" && not (stepn t false) then begin
+          ensure_closed i;
+          if not (stepn t false) && not (stepn t true) then fail (Printf.sprintf "model-blocks:t%d:lock-frame" t)
+        end
+      | 6, _ when e.a = 1 && e.b = 1 -> (* writeFrame passed `select { <-closed | writeTimeout <- ctx }`: the model's Check step *)
+        (match phase_of t with Check _ -> ignore (stepn t false) | _ -> ())
+      | 5, _ -> (* writeFrame starts writing *)
+        (match phase_of t with Check _ -> ignore (stepn t false) | _ -> ());
+        (match phase_of t with
+         | Emit _ -> ()
+         | FailFrame _ when !st.closed -> ()     (* the connection was closed between the library's check and this point: the write fails in both *)
+         | _ -> fail (Printf.sprintf "model-refuses-frame:t%d:opc%d" t e.a))
       | 2, 3 -> (* writeFrameMu released *)
         (match phase_of t with
          | Emit _ -> ignore (stepn t false); (match phase_of t with Unlock _ | FailFrame _ -> ignore (stepn t false) | _ -> fail "unlock-frame-emit")
-         | Check _ -> ignore (stepn t false); (match phase_of t with FailFrame _ -> ignore (stepn t false) | _ -> fail (Printf.sprintf "model-accepts-frame-the-library-refused:t%d" t))
+         | Check _ ->
+           (* the library gave the lock up without writing: it saw the connection closed or the Close frame sent *)
+           if not !st.closed && not !st.close_sent then ensure_closed i;
+           ignore (stepn t false);
+           (match phase_of t with FailFrame _ -> ignore (stepn t false) | _ -> fail (Printf.sprintf "model-accepts-frame-the-library-refused:t%d" t))
          | Unlock _ | FailFrame _ -> ignore (stepn t false)
          | _ -> ())  (* unlock of a lock not held (deferred unlock after a failed lock): no effect *)
       | 2, 1 -> (match phase_of t with
                  | EndMsg -> ignore (stepn t false)
                  | WantFrame (FData, _, _, _) when !st.close_sent && !st.msg_mu = Some (nat_of_int t) -> ignore (stepn t true)   (* refused through the compressor's sticky error *)
                  | _ -> ())
-      | 4, _ -> (* the connection was marked closed by this goroutine *)
-        (match phase_of t with
-         | DoClose -> ignore (stepn t false)
-         | _ -> (* try to get there (a Close whose frame is done / refused, a CloseNow); otherwise it is an outside close *)
-           let saved = !st in
-           let ok = ref false in
-           let n = ref 0 in
-           while not !ok && !n < 8 do
-             (match phase_of t with DoClose -> ok := true | Idle | Unlock _ | FailFrame _ -> if not (stepn t false) then n := 8 | _ -> n := 8);
-             incr n
-           done;
-           if !ok then ignore (stepn t false)
-           else begin st := saved; (match step !st EClose with Some s -> st := s | None -> ()) end)
+      | 4, _ -> if !closed_consumed then closed_consumed := false else do_close t
       | 3, 3 -> (match phase_of t with ForceFrame -> if not (stepn t false) then fail (Printf.sprintf "model-blocks:t%d:forcelock-frame" t) | _ -> ())
       | _ -> ()
     end) trace;
   (* the frames the model put on the wire, in order, against the frames the library started, in order *)
   let mframes = List.filter_map (fun (e : wev) -> if int_of_nat e.e_part = 0 then Some (int_of_nat e.e_tid, (match e.e_kind with FData -> 0 | FPing -> 9 | FClose -> 8), if e.e_fin then 1 else 0) else None) !st.wire in
-  let iframes = List.filter_map (fun e -> if e.evk = 5 then Some (e.th, (if e.a = 8 then 8 else if e.a >= 9 then 9 else 0), (if e.a >= 8 then 1 else e.b)) else None) trace in
+  let tr_arr = Array.of_list trace in
+  let first_closed = (let r = ref max_int in Array.iteri (fun i e -> if e.evk = 4 && i < !r then r := i) tr_arr; !r) in
+  let unlocked_before_close i t =
+    let r = ref false and j = ref (i + 1) in
+    while !j < Array.length tr_arr && not !r && !j < first_closed do
+      (let e = tr_arr.(!j) in if e.th = t && e.evk = 2 && e.mu = 3 then r := true); incr j
+    done; !r in
+  let iframes = List.concat (List.mapi (fun i e ->
+    if e.evk = 5 && unlocked_before_close i e.th then [(e.th, (if e.a = 8 then 8 else if e.a >= 9 then 9 else 0), (if e.a >= 8 then 1 else e.b))] else []) trace) in
   if !err = "" && mframes <> iframes then fail (Printf.sprintf "frame-order-differs:model=%d:impl=%d" (List.length mframes) (List.length iframes));
   let props = Printf.sprintf "%b,%b,%b" (frames_atomic None !st.wire) (msgs_unmixed None !st.wire) (after_close None !st.wire) in
   (* goroutines (C20): the timeout goroutine (started in newConn, before tracing) and every CloseRead goroutine must have exited *)
